@@ -360,6 +360,20 @@ def check(ctx):
     f = mod.func("normalize_ordered_dict")
     ok = (all("type(d)" in unparse(r.value) and "d.items()" in unparse(r.value) for r in returns(f)) and bool(returns(f)))
     ctx.ob("TAB.type-tag", f, "normalize_ordered_dict keeps the type and the item order", ok)
+    # ---------------- INJ.tagged-string: a handler for a non-string type never returns a bare string-valued attribute
+    BARE_OK = {("normalize_object", "uuid.uuid4().hex"): "deliberately unique", ("normalize_ufunc", "uuid.uuid4().hex"): "deliberately unique", ("normalize_na", "pd.NA"): "the singleton itself"}
+    n_b = 0
+    for f_, t_ in regs:
+        for r in returns(f_):
+            v = r.value
+            bare = isinstance(v, (ast.Attribute, ast.JoinedStr)) or (isinstance(v, ast.Call) and call_name(v) == "normalize_token" and len(v.args) == 1 and isinstance(v.args[0], ast.Attribute)) or (isinstance(v, ast.Call) and call_name(v) in ("str", "repr"))
+            if not bare:
+                continue
+            n_b += 1
+            why = BARE_OK.get((f_.name, unparse(v)))
+            ctx.ob("INJ.tagged-string", r, f"{f_.name} ({t_}) returns {unparse(v)[:50]}", why is not None, why or "a bare string is also the token of that very string: the object and its textual form collide (np.dtype('<i8') vs '<i8')", nontrivial=why is None)
+    ctx.count("bare_string_returns", n_b)
+    ctx.floor("bare_string_returns", 2, "the uuid fallbacks")
     # ---------------- ORD.sorted-only-unordered: sorting erases order, so only inherently unordered things are sorted
     SORT_OK = {("_tokenize", "kwargs.items()"): "keyword arguments have no order", ("normalize_dict", "d.items()"): "dict equality ignores insertion order", ("normalize_set", "s"): "sets are unordered"}
     n_s = 0
